@@ -1,8 +1,9 @@
 import CfrVerif.Proofs.Frontier
 import CfrVerif.Proofs.FrontierExt
 import CfrVerif.Proofs.GameWF
-import CfrVerif.Proofs.Locks
+import CfrVerif.Proofs.LocksCheck
 --! audit CfrVerif/Proofs/Locks.lean
+--! audit CfrVerif/Proofs/LocksCheck.lean
 /-!
 # C07 — the sampled solvers are thread-count invariant once the random choices are fixed
 
